@@ -235,7 +235,7 @@ func c09Pack(spec *QUICSpec, ch []byte, env c09Env, rng *rand.Rand) (res c09Flig
 }
 
 // c09JudgeFlight turns a packed flight into a verdict: error-before-output or correct.
-func c09JudgeFlight(c *evlog.Case, rp *c09Rep, comp, inClass string, res c09FlightResult, ch []byte, trace func() map[string]any) (string, c09Stats) {
+func c09JudgeFlight(c *evlog.Case, rp *c09Rep, comp, inClass string, env c09Env, res c09FlightResult, ch []byte, trace func() map[string]any) (string, c09Stats) {
 	full := func() map[string]any {
 		tr := trace()
 		tr["payloads"] = c09HexAll(res.Payloads)
@@ -258,7 +258,18 @@ func c09JudgeFlight(c *evlog.Case, rp *c09Rep, comp, inClass string, res c09Flig
 		tr["error"] = res.Err.Error()
 		kind := "|other-error"
 		if strings.Contains(res.Err.Error(), "does not fit the packet buffer") {
+			// the environment classes under which the packer is known to size a later datagram
+			// too generously are part of the signature
 			kind = "|packet-buffer-overflow"
+			if env.MaxSize == protocol.MaxPacketBufferSize {
+				kind += "|maxsize-at-buffer-size"
+			}
+			for _, x := range env.PNLens {
+				if x != env.PNLens[0] {
+					kind += "|varying-pnlen"
+					break
+				}
+			}
 		}
 		rp.viol("C09|"+comp+"|error-after-output"+kind+inClass, fmt.Sprintf("%d Initial datagram(s) carrying %d of %d ClientHello bytes were produced before the packer failed with: %v", len(res.Payloads), st.Covered, len(ch), res.Err), tr)
 		return "viol", st
@@ -373,7 +384,7 @@ func TestVerifC09PackFlight(t *testing.T) {
 				rej := 0
 				for j := 0; j < d; j++ {
 					res := c09Pack(spec, data, env, rng)
-					oc, st := c09JudgeFlight(c, rp, comp, "", res, data, trace)
+					oc, st := c09JudgeFlight(c, rp, comp, "", env, res, data, trace)
 					c.Count("flight_"+p.Class+"_"+oc, 1)
 					if oc == "ok" && !p.ModelCov {
 						c.Count("noncovering_plan_passed_with_covering_output", 1)
@@ -559,7 +570,7 @@ func TestVerifC09PackDgram(t *testing.T) {
 			}
 			for j := 0; j < d; j++ {
 				res := c09Pack(spec, ch, env, rng)
-				oc, st := c09JudgeFlight(c, rp, comp, inClass, res, ch, trace)
+				oc, st := c09JudgeFlight(c, rp, comp, inClass, env, res, ch, trace)
 				c.Count(comp+"_"+oc, 1)
 				c.Eval(fmt.Sprintf("pd %s %s %s", comp, oc, st.fp()))
 				if oc == "rejected" && j >= 3 {
@@ -665,7 +676,7 @@ func TestVerifC09Parrot(t *testing.T) {
 				env.FirstPN = int(spec.InitialPacketSpec.InitPacketNumber)
 				env.TokenLen = spec.InitialPacketSpec.ClientTokenLength
 				res := c09Pack(&spec, ch, env, rng)
-				oc, st := c09JudgeFlight(c, rp, "parrot-"+pr.Name, "", res, ch, func() map[string]any {
+				oc, st := c09JudgeFlight(c, rp, "parrot-"+pr.Name, "", env, res, ch, func() map[string]any {
 					return map[string]any{"parrot": pr.Name, "env": env}
 				})
 				c.Count("parrot_flight_"+oc, 1)
@@ -673,7 +684,7 @@ func TestVerifC09Parrot(t *testing.T) {
 				if j%10 == 0 { // the same ClientHello through stock quic-go framing, scrambler on
 					env.Scramble = true
 					res := c09Pack(nil, ch, env, rng)
-					oc, st := c09JudgeFlight(c, rp, "packer-plain-scrambler", "", res, ch, func() map[string]any {
+					oc, st := c09JudgeFlight(c, rp, "packer-plain-scrambler", "", env, res, ch, func() map[string]any {
 						return map[string]any{"parrot": pr.Name, "env": env, "real": true}
 					})
 					c.Eval(fmt.Sprintf("parrot-scr %s %s %s", pr.Name, oc, st.fp()))
